@@ -10,11 +10,34 @@ from __future__ import annotations
 
 import json
 import multiprocessing as mp
+import signal
 from collections import Counter
 
 from . import lsdrive
 
 PAD = 3  # cursors of the trace specification
+
+
+StepTimeout = lsdrive.StepTimeout
+_on_alarm = lsdrive.on_alarm
+
+
+class watchdog:
+    """Bounds the time one behaviour may take on the real code: a call that loops forever is turned into
+    the outcome err:StepTimeout of that call instead of hanging the check."""
+
+    def __init__(self, seconds: float = 3.0):
+        self.seconds = seconds          # CPU seconds of this process (robust against a loaded machine)
+
+    def __enter__(self):
+        self.old = signal.signal(signal.SIGVTALRM, _on_alarm)
+        signal.setitimer(signal.ITIMER_VIRTUAL, self.seconds, 0.5)   # keeps firing: later calls may loop too
+        return self
+
+    def __exit__(self, *a):
+        signal.setitimer(signal.ITIMER_VIRTUAL, 0)
+        signal.signal(signal.SIGVTALRM, self.old)
+        return False
 
 
 def parse_line(line: str):
@@ -31,26 +54,36 @@ def _san(lst):
 
 
 def event_ls(op, a, es, c, out, y, obs):
+    if obs is None:
+        return None
     lst, n, it, ni, m, oob = obs
     return [op, a, list(es), c, out, y, _san(lst), n, _san(it), _san(ni), m, oob]
 
 
 # ------------------------------------------------------------------------------------- LinkedSet
-def run_ls(kind, nelem, h, stop_at=None):
+def run_ls(kind, nelem, h, full=False):
     """Execute history h on a fresh target; returns (first mismatch index or None, observed events)."""
     init, dirs = h[0][2], h[0][7]
     t = lsdrive.make_target(kind, nelem, init, dirs)
     evs = []
     bad = None
+    last = len(h) - 2
     for idx, ent in enumerate(h[1:]):
         op, a, es, c, out, y, lst = ent[:7]
         o, yy = t.apply(op, a, es, c)
-        obs = t.observe()
-        evs.append(event_ls(op, a, es, c, o, yy, obs))
-        if bad is None and ((o, yy) != (out, y) or tuple(map(_plain, obs)) != tuple(map(_plain, lsdrive.expected_obs(lst, nelem)))):
+        if full or idx >= last - 1 or op != "ST":
+            obs = t.observe()
+            ok = tuple(map(_plain, obs)) == tuple(map(_plain, lsdrive.expected_obs(lst, nelem)))
+        else:   # a cursor step deep inside the prefix: the list alone (every prefix is a behaviour of its own)
+            obs = None
+            ok = [t.ident(x) for x in t.x] == list(lst)
+        evs.append((op, a, es, c, o, yy, obs))
+        if (o, yy) != (out, y) or not ok:
             bad = idx
             break
-    return bad, evs
+    if bad is not None and any(e[6] is None for e in evs):
+        return run_ls(kind, nelem, h, full=True)      # re-record with the full observation of every step
+    return bad, [event_ls(*e) for e in evs]
 
 
 def _plain(x):
@@ -151,6 +184,9 @@ def _work(args):
     bad = []
     sample = None
     for line in lines:
+        if len(bad) >= 25:        # this chunk has shown enough disagreements (bounds the time spent on a broken tree)
+            st["skipped_after_disagreements"] += 1
+            continue
         rec = parse_line(line)
         if rec is None:
             continue
@@ -159,7 +195,10 @@ def _work(args):
         if family == "ls":
             key, nt = ls_key(h)
             for kind in kinds:
-                b, evs = run_ls(kind, nelem, h)
+                if kind == "alt":     # quick tier: Graph and Function take turns
+                    kind = ("graph", "func")[st["behaviours"] % 2]
+                with watchdog():
+                    b, evs = run_ls(kind, nelem, h)
                 st["runs"] += 1
                 st["steps"] += len(evs)
                 if b is not None:
@@ -167,7 +206,8 @@ def _work(args):
         else:
             key, nt = rec_key(h)
             for variant in kinds:
-                b, evs = run_rec(nelem, h, variant)
+                with watchdog():
+                    b, evs = run_rec(nelem, h, variant)
                 st["runs"] += 1
                 st["steps"] += len(evs)
                 if b is not None:
@@ -213,6 +253,10 @@ def replay_files(paths, family, nelem, kinds, nproc=8, chunk=1500, cap=None, see
                 bad.extend(b)
             if sm is not None and len(samples) < 3:
                 samples.append(sm)
+            if nbad >= 300:       # plenty to classify; do not grind through the rest on a broken tree
+                st["stopped_early"] = 1
+                pool.terminate()
+                break
     return dict(stats=st, keys=keys, nontrivial=nontriv, bad=bad, nbad=nbad, samples=samples)
 
 
